@@ -238,12 +238,34 @@ class Inliner:
     def gen_loop(self, st, depth):
         """`for T in self._gen(args): BODY` with a private generator helper: the generator's body with every `yield v` replaced by
         `T = v; BODY` - the interleaving a generator has with its consumer, written out.  Declined (None) whenever the two could
-        differ: break / continue / return / yield in BODY, an else clause, try / with / return-with-value / yield-as-expression in
+        differ: break / continue / return / yield in BODY, an else clause, a yield inside try / with, return / yield-as-expression in
         the generator, an argument name that BODY rebinds."""
         if depth <= 0 or st.orelse or not isinstance(st.iter, ast.Call):
             return None
         if any(isinstance(n, (ast.Break, ast.Continue, ast.Return, ast.Yield, ast.YieldFrom, ast.FunctionDef, ast.Lambda)) for b in st.body for n in ast.walk(b)):
             return None
+        counter = None
+        if isinstance(st.iter.func, ast.Name) and st.iter.func.id == 'enumerate' and len(st.iter.args) == 1 and not st.iter.keywords and isinstance(st.iter.args[0], ast.Call) \
+                and isinstance(st.target, ast.Tuple) and len(st.target.elts) == 2 and isinstance(st.target.elts[0], ast.Name):
+            # `for i, T in enumerate(gen())`: when the generator yields exactly once per iteration of its single `for v in range(n)`
+            # loop, the count i *is* v
+            callee_, _ = resolve_helper(self.prog, self.f, st.iter.args[0], self.skip)
+            if callee_ is None:
+                return None
+            gb = body_no_doc(callee_.node)
+            loops_ = [s for s in gb if isinstance(s, ast.For)]
+            ys_ = [n for s in gb for n in ast.walk(s) if isinstance(n, ast.Yield)]
+            if len(loops_) != 1 or len(ys_) != 1 or loops_[0].orelse or not isinstance(loops_[0].target, ast.Name):
+                return None
+            lp = loops_[0]
+            if not (isinstance(lp.iter, ast.Call) and isinstance(lp.iter.func, ast.Name) and lp.iter.func.id == 'range' and len(lp.iter.args) == 1 and not lp.iter.keywords):
+                return None
+            if not any(isinstance(b, ast.Expr) and b.value is ys_[0] for b in lp.body) or any(isinstance(n, (ast.Continue, ast.Break)) for b in lp.body for n in ast.walk(b)):
+                return None            # the yield must be unconditional, once per iteration
+            if any(isinstance(n, ast.Name) and n.id == lp.target.id and isinstance(n.ctx, ast.Store) and n is not lp.target for n in ast.walk(callee_.node)):
+                return None
+            counter = (lp.target.id, st.target.elts[0].id)
+            st = ast.copy_location(ast.For(target=st.target.elts[1], iter=st.iter.args[0], body=st.body, orelse=[]), st)
         callee, is_method = resolve_helper(self.prog, self.f, st.iter, self.skip)
         if callee is None:
             return None
@@ -254,7 +276,10 @@ class Inliner:
         ystmts = [n for s in body for n in ast.walk(s) if isinstance(n, ast.Expr) and isinstance(n.value, ast.Yield)]
         if len(ystmts) != len(yields):
             return None
-        if any(isinstance(n, (ast.YieldFrom, ast.Try, ast.With, ast.Return, ast.Global, ast.Nonlocal, ast.FunctionDef, ast.ClassDef, ast.Lambda)) for s in body for n in ast.walk(s)):
+        if any(isinstance(n, (ast.YieldFrom, ast.Return, ast.Global, ast.Nonlocal, ast.FunctionDef, ast.ClassDef, ast.Lambda)) for s in body for n in ast.walk(s)):
+            return None
+        # a yield inside try / with: what BODY raises (or the generator being closed) would meet the generator's handlers differently
+        if any(isinstance(y, ast.Yield) for s in body for t in ast.walk(s) if isinstance(t, (ast.Try, ast.With)) for y in ast.walk(t)):
             return None
         rebound_by_consumer = assigned_names(st.body) | assigned_names([ast.Assign(targets=[st.target], value=ast.Constant(value=None))])
         if any(isinstance(n, ast.Name) and n.id in rebound_by_consumer for a in list(st.iter.args) + [k.value for k in st.iter.keywords] for n in ast.walk(a)):
@@ -267,7 +292,25 @@ class Inliner:
                     return ast.copy_location(ast.Expr(value=ast.Call(func=ast.Name(id='__yield__', ctx=ast.Load()), args=[v], keywords=[])), n)
                 return n
         marked = [Y().visit(copy.deepcopy(s)) for s in body]
-        out = self.stmt_helper(ast.copy_location(ast.Expr(value=st.iter), st), depth, forced=(callee, is_method, marked))
+        # one yield of plain generator locals into plain consumer names: the generator's locals *are* the consumer's variables
+        # (no copy to follow), provided the consumer never rebinds them and the generator uses those names for nothing else
+        share = {}
+        if len(yields) == 1 and yields[0].value is not None:
+            yv = yields[0].value
+            ys = list(yv.elts) if isinstance(yv, ast.Tuple) else [yv]
+            ts = list(st.target.elts) if isinstance(st.target, ast.Tuple) else [st.target]
+            params_ = {a_.arg for a_ in callee.node.args.posonlyargs + callee.node.args.args + callee.node.args.kwonlyargs}
+            gen_names = {n.id for s in body for n in ast.walk(s) if isinstance(n, ast.Name)}
+            if len(ys) == len(ts) and all(isinstance(y, ast.Name) for y in ys) and all(isinstance(t, ast.Name) for t in ts) \
+                    and len({y.id for y in ys}) == len(ys) and not ({y.id for y in ys} & params_) \
+                    and not ({t.id for t in ts} & (gen_names - {y.id for y in ys})) and not ({t.id for t in ts} & assigned_names(st.body)):
+                share = {y.id: t.id for y, t in zip(ys, ts)}
+        if counter is not None:
+            if counter[1] in assigned_names(st.body) or counter[1] in {n.id for s in body for n in ast.walk(s) if isinstance(n, ast.Name)} - {counter[0]}:
+                return None
+            share = dict(share)
+            share[counter[0]] = counter[1]
+        out = self.stmt_helper(ast.copy_location(ast.Expr(value=st.iter), st), depth, forced=(callee, is_method, marked, share))
         if out is None:
             return None
         me = self
@@ -279,7 +322,8 @@ class Inliner:
                     a = ast.Assign(targets=[copy.deepcopy(st.target)], value=s.value.args[0])
                     ast.copy_location(a, st)
                     ast.fix_missing_locations(a)
-                    res.append(a)
+                    if norm(a.targets[0]) != norm(a.value):          # shared names: nothing to bind
+                        res.append(a)
                     res.extend(me.block(copy.deepcopy(st.body), depth))
                     continue
                 for field in ('body', 'orelse', 'finalbody'):
@@ -305,8 +349,9 @@ class Inliner:
             call, is_ret = st.value, True
         if call is None:
             return None
+        share = {}
         if forced is not None:
-            callee, is_method, body = forced
+            callee, is_method, body, share = forced
         else:
             callee, is_method = resolve_helper(self.prog, self.f, call, self.skip)
             if callee is None:
@@ -355,7 +400,7 @@ class Inliner:
                 mapping[p] = tag + p
                 pre.append(ast.Assign(targets=[ast.Name(id=tag + p, ctx=ast.Store())], value=copy.deepcopy(arg)))
         for n in rebound - params:
-            mapping[n] = tag + n
+            mapping[n] = share.get(n, tag + n)
         # `target = helper(...)` with `return local`: the helper's local *is* the caller's target
         if last_ret is not None and isinstance(last_ret.value, ast.Name) and last_ret.value.id in (rebound - params) and isinstance(target, ast.Name) \
                 and target.id not in {n_.id for s_ in core for n_ in ast.walk(s_) if isinstance(n_, ast.Name)}:
@@ -388,8 +433,54 @@ class Inliner:
         self.inlined.append(callee.key)
         return self.block(out, depth - 1)
 
+    def hoist_head_call(self, st):
+        """`t = self._helper(x).astype(p)`: a statement-bodied helper called where the evaluation of the right-hand side starts
+        (receiver of a method call / attribute, left operand, subscripted value) is bound to a local first - nothing is evaluated
+        before it, so the order of effects is unchanged.  -> [binding, rewritten statement] or None"""
+        if not isinstance(st, (ast.Assign, ast.Return, ast.Expr)) or st.value is None:
+            return None
+        path, cur, par, fld = [], st.value, st, 'value'
+        found = None
+        while True:
+            if isinstance(cur, ast.Call):
+                if par is not st:
+                    callee, _ = resolve_helper(self.prog, self.f, cur, self.skip)
+                    if callee is not None:
+                        b_ = body_no_doc(callee.node)
+                        if len(b_) > 1 and not any(isinstance(n, (ast.Yield, ast.YieldFrom)) for s_ in b_ for n in ast.walk(s_)):
+                            found = (cur, par, fld)
+                if isinstance(cur.func, ast.Attribute):
+                    par, fld, cur = cur.func, 'value', cur.func.value
+                    continue
+                break
+            if isinstance(cur, ast.Attribute):
+                par, fld, cur = cur, 'value', cur.value
+            elif isinstance(cur, ast.BinOp):
+                par, fld, cur = cur, 'left', cur.left
+            elif isinstance(cur, ast.Subscript):
+                par, fld, cur = cur, 'value', cur.value
+            else:
+                break
+        if found is None:
+            return None
+        call, par, fld = found
+        self.counter += 1
+        name = f'_hv{self.counter}'
+        bind_ = ast.copy_location(ast.Assign(targets=[ast.Name(id=name, ctx=ast.Store())], value=call), st)
+        setattr(par, fld, ast.copy_location(ast.Name(id=name, ctx=ast.Load()), call))
+        ast.fix_missing_locations(bind_)
+        return [bind_, st]
+
     def block(self, stmts, depth):
         out = []
+        stmts = list(stmts)
+        i_ = 0
+        while i_ < len(stmts):            # head calls of statement-bodied helpers become statements of their own
+            h_ = self.hoist_head_call(stmts[i_]) if depth > 0 else None
+            if h_ is not None:
+                stmts[i_:i_ + 1] = h_
+                continue
+            i_ += 1
         for st in stmts:
             rep = self.stmt_helper(st, depth)
             if rep is not None:
@@ -443,6 +534,7 @@ def inlined(prog, f, depth=2, skip=()):
     if not inl.inlined and not props:
         _cache[k] = f
         return f
+    node = _nz.scalar_replace_records(prog, f, node)     # small records passed between the inlined stages
     g = copy.copy(f)
     g.node = node
     g.inlined_helpers = list(inl.inlined)
